@@ -87,6 +87,24 @@ EVIL_LAST = ["..%2F..%2F..%2F..%2Fesc.ics", "..%252F..%252F..%252F..%252Fesc.ics
              "%EF%BC%8E%EF%BC%8E%EF%BC%8F%EF%BC%8E%EF%BC%8E%EF%BC%8F%EF%BC%8E%EF%BC%8E%EF%BC%8F%EF%BC%8E%EF%BC%8E%EF%BC%8Fdecoy%EF%BC%8Fesc.ics", "%E2%80%A5%EF%BC%8F%E2%80%A5%EF%BC%8F%E2%80%A5%EF%BC%8F%E2%80%A5%EF%BC%8Fdatax%EF%BC%8Fesc.vcf", "%EF%BC%8E%EF%BC%8E%EF%BC%8F%E2%80%A5%EF%BC%8F%EF%BC%8E%EF%BC%8E%EF%BC%8F%E2%80%A5%EF%BC%8Fesc.ics"]
 
 
+# characters that a "sanitising" step may delete: a segment that only becomes `..` once they are gone is an
+# ordinary name for every path function that ran before
+STRIPPED = ["%00", "%0D", "%0A", "%09", "%7F", "%E2%80%8B", "%C2%AD", "%EF%BB%BF"]
+
+
+def strip_targets(prefix):
+    p = prefix.rstrip("/")
+    out = []
+    for c in STRIPPED:
+        d = "." + c + "."
+        out += [("MKCOL", f"{p}/{d}/decoy/pwn"), ("MKCALENDAR", f"{p}/{d}/{d}/decoy/pwn2/"),
+                ("GET", f"{p}/{d}/decoy/secret.ics"), ("PUT", f"{p}/user/{d}/{d}/decoy/x.ics"),
+                ("DELETE", f"{p}/{d}/decoy/secret.ics"), ("PROPFIND", f"{p}/{d}/datax/"),
+                ("PUT", f"{p}/user/calendars/calendar/{d}/{d}/{d}/{d}/decoy/esc.ics"),
+                ("GET", f"{p}/{c}../decoy/secret.ics"), ("DELETE", f"{p}/..{c}/datax/secret.vcf")]
+    return out
+
+
 def gen_target(rng, prefix):
     if rng.random() < 0.12:
         return prefix.rstrip("/") + rng.choice(["/user/calendars/calendar/", "/user/contacts/addressbook/"]) + rng.choice(EVIL_LAST)
@@ -179,6 +197,7 @@ def server_audit(chk, n_requests):
                 fixed = [(m_, prefix.rstrip("/") + c_ + e_) for e_ in EVIL_LAST
                          for (m_, c_) in (("PUT", "/user/calendars/calendar/"), ("PUT", "/user/contacts/addressbook/"),
                                           ("DELETE", "/user/calendars/calendar/"), ("MKCALENDAR", "/user/calendars/"))]
+                fixed += strip_targets(prefix)
                 for i in range(len(fixed) + n_requests):
                     method = chk.rng.choice(METHODS)
                     if method == "OPTIONS" and chk.rng.random() < 0.7:
@@ -245,6 +264,71 @@ def server_audit(chk, n_requests):
             chk.traces_validated += 1
 
 
+def relocated_root(chk):
+    """The data directory is a copy of another one (a restored backup, a migration with `cp -a`): the server
+    started on the copy must work on the copy — every file-system access of ordinary requests stays beneath
+    the new root, and the original is left exactly as it was.  (Anything absolute that was recorded inside the
+    collections when they were created would point at the original.)"""
+    install_hook()
+    for fe in ("wsgi", "aiohttp"):
+        scratch = scratch_dir("xv-c13r-")
+        a_root = os.path.join(scratch, "old-home", "data")
+        b_root = os.path.join(scratch, "new-home", "data")
+        srv = None
+        try:
+            srv = make_server(fe, a_root, prefix="/")
+            P = "/user/calendars/"
+            srv.request("MKCALENDAR", P + "work/", {}, b"")
+            for i, t in enumerate([P + "calendar/a.ics", P + "calendar/b.ics", P + "work/w.ics"]):
+                srv.request("PUT", t, {"Content-Type": "text/calendar"}, vevent("reloc-%d" % i))
+            srv.request("PUT", "/user/contacts/addressbook/k.vcf", {"Content-Type": "text/vcard"}, vcard("K", uid="reloc-k"))
+            srv.close()
+            srv = None
+            shutil.copytree(a_root, b_root, symlinks=True)
+            before = snapshot(os.path.join(scratch, "old-home"))
+            from xandikos.web import open_store_from_path
+            from httpdrv import clear_store_cache
+            clear_store_cache(open_store_from_path)
+            srv = make_server(fe, b_root, prefix="/")
+            reqs = [("PUT", P + "calendar/a.ics", {"Content-Type": "text/calendar"}, vevent("reloc-0", summary="changed")),
+                    ("PUT", P + "calendar/new.ics", {"Content-Type": "text/calendar"}, vevent("reloc-new")),
+                    ("DELETE", P + "calendar/b.ics", {}, b""), ("PROPPATCH", P + "work/", {"Content-Type": "text/xml"}, PROPPATCH),
+                    ("PROPFIND", P + "work/", {"Depth": "1"}, b""), ("GET", P + "work/w.ics", {}, b""),
+                    ("MKCALENDAR", P + "fresh/", {}, b""), ("PUT", P + "fresh/f.ics", {"Content-Type": "text/calendar"}, vevent("reloc-f")),
+                    ("DELETE", P + "work/", {}, b""), ("DELETE", "/user/contacts/addressbook/", {}, b"")]
+            for (m, t, h, b) in reqs:
+                REC["events"] = []
+                REC["on"] = True
+                try:
+                    resp = srv.request(m, t, h, b)
+                finally:
+                    REC["on"] = False
+                chk.case(("relocated", fe, m, t), nontrivial=True)
+                chk.count(f"relocated:{fe}:{m}:{resp.status}")
+                import guard
+                while guard.BLOCKED:
+                    guard.BLOCKED.pop()
+                for (ev, p, mode) in list(REC["events"]):
+                    ap = os.path.abspath(p) if not os.path.isabs(p) else p
+                    if ap.startswith(scratch) and not lexically_inside(ap, b_root):
+                        chk.violation(f"C13:relocated-root:fs-access-outside-root:{m}@{fe}",
+                                      f"server started on {b_root} (a copy of {a_root}): {m} {t} made {ev}({p!r})",
+                                      {"level": "http", "frontend": fe, "scenario": "data directory copied, server started on the copy",
+                                       "method": m, "target": t, "event": ev, "path": p})
+            after = snapshot(os.path.join(scratch, "old-home"))
+            if after != before:
+                changed = sorted(set(after) ^ set(before)) or [k for k in after if after[k] != before.get(k)]
+                chk.violation(f"C13:relocated-root:original-directory-changed@{fe}",
+                              f"requests to the server on the copy changed the original data directory: {changed[:5]}",
+                              {"level": "http", "frontend": fe, "scenario": "data directory copied, server started on the copy",
+                               "changed": changed[:20]})
+        finally:
+            if srv is not None:
+                srv.close()
+            shutil.rmtree(scratch, ignore_errors=True)
+        chk.traces_validated += 1
+
+
 # ---------------------------------------------------------------------------
 # function-level tie: real _map_to_file_path vs the Lean model, and the Lean `Confined` monitor
 
@@ -254,7 +338,8 @@ def map_grid(chk, n):
     root = "/srv/dav"
     be = XandikosBackend(root)
     lines, cases = [], []
-    alphabet = ["..", ".", "", "a", "b c", "%2e%2e", "ü", "....", "x.ics", ".git", "a/../..", "//"]
+    alphabet = ["..", ".", "", "a", "b c", "%2e%2e", "ü", "....", "x.ics", ".git", "a/../..", "//",
+                ".\x00.", "\x00..", ".\r.", ".\u200b.", "..\x00"]
     for i in range(n):
         k = chk.rng.randint(0, 6)
         rel = chk.rng.choice(["", "/", "//", "///", "./", "../"]) + "/".join(chk.rng.choice(alphabet) for _ in range(k))
@@ -305,6 +390,7 @@ def run(chk):
     quick = chk.tier == "quick"
     map_grid(chk, 3000 if quick else 60000)
     server_audit(chk, 150 if quick else 2500)
+    relocated_root(chk)
     chk.assumptions.append("lexical confinement: no symlinks inside the data root; kernel path resolution not modelled")
     chk.assumptions.append("file-system accesses made by C extensions without audit events are not seen")
 
